@@ -139,7 +139,7 @@ def check(prog, open_keys=()) -> Dict[str, Any]:
         for rid, h in run.regs.items():
             want = snap["regs"].get(rid)
             if rid in seg_regs:
-                got = ex._registers[app][h.reg.name][h.reg.index]
+                got = ex._get_register(app, h.reg)
                 if got != want:
                     raise Failure("ctrl-register", case, f"flush {k}: controller register {h.reg} (RegFuture {rid}) is {got}, direct execution gives {want}")
             hv = h.value
